@@ -196,20 +196,20 @@ def _(c):
     c.ensure("input_untouched", sym.And(c.all_eq(np.asarray(orb), y0), orb.date.t == t0))
 
 
-@contract("C06", "step.impulse", funcs=[f"{KNC}._make_step"],
-          assumptions=["callee contracts: _accel pure; ImpulsiveMan.check window (C17.man.once); ImpulsiveMan.dv (C17.man.dv)"])
-def _(c):
-    """an impulsive maneuver is added to the velocity at the end of exactly the step whose window (date, date+h] holds its date"""
+def _impulse_body(c):
+    """an impulsive maneuver is added to the velocity at the end of exactly the step whose window (date, date + actual step] holds its
+    date -- the window is that of the step actually taken, not of the propagator's nominal step"""
     if not c.symbolic:
         return
     from beyond.orbits.man import ImpulsiveMan
     y0 = c.vec("y", 6)
     t0, h, d = c.real("t0"), c.real("h", lo=0), c.real("d")
+    hnom = c.real("h_nominal", lo=0)
     dv = c.vec("dv", 3)
     w = c.world(stubs={f"{KNC}._accel": _accel_stub})
     man = ImpulsiveMan(SymDate(d), dv)
     user = SymStateVector(list(y0), date=SymDate(t0), form="cartesian", frame="EME2000", maneuvers=[man])
-    kn = w.obj(KNC, method="euler", _orbit=user, tol=None, step=SymTimedelta(h))
+    kn = w.obj(KNC, method="euler", _orbit=user, tol=None, step=SymTimedelta(hnom))
     orb = SymStateVector(list(y0), date=SymDate(t0), form="cartesian", frame="EME2000")
     step, y1 = kn._make_step(orb, SymTimedelta(h))
     k0 = _f(t0, list(y0))
@@ -218,6 +218,11 @@ def _(c):
     for k in range(3):
         c.ensure(f"position.{k}", y1[k] == base[k])
         c.ensure(f"velocity.{k}", y1[3 + k] == sym.ite(inside, base[3 + k] + dv[k], base[3 + k]))
+
+
+_IMP_ASSUME = ["callee contracts: _accel pure; ImpulsiveMan.check window (C17.man.once); ImpulsiveMan.dv (C17.man.dv)"]
+contract("C06", "step.impulse", funcs=[f"{KNC}._make_step"], assumptions=_IMP_ASSUME)(_impulse_body)
+contract("C17", "num.impulse_window", funcs=[f"{KNC}._make_step"], assumptions=_IMP_ASSUME)(_impulse_body)
 
 
 @contract("C06", "step.adaptive", funcs=[f"{KNC}._make_step"],
